@@ -9,7 +9,7 @@ for d in sys.argv[1:]:
     dst = os.path.join(VERIF, "seeded", name)
     os.makedirs(dst, exist_ok=True)
     for f in ("patch.diff", "demo.py", "notes.md"):
-        if os.path.exists(os.path.join(d, f)):
+        if os.path.exists(os.path.join(d, f)) and os.path.realpath(d) != os.path.realpath(dst):
             shutil.copy2(os.path.join(d, f), os.path.join(dst, f))
     notes = open(os.path.join(d, "notes.md")).read() if os.path.exists(os.path.join(d, "notes.md")) else ""
     meta = {
@@ -20,5 +20,15 @@ for d in sys.argv[1:]:
         "what_was_run": "tools/eval_seeded.py: scratch copy of /repo's tracked files + patch.diff; pytest -n 8 (pinned suite) in the copy; demo.py against the copy and against /repo; ./check <PROP> --tier quick with DSIM_REPO=<copy>",
         "checks": {c: {"caught": v["caught"], "exit": v["exit"], "first_lines": v["lines"][:3], "summary": v["summary"]} for c, v in ev.get("checks", {}).items()},
     }
+    old = {}
+    if os.path.exists(os.path.join(dst, "meta.json")):
+        try:
+            old = json.load(open(os.path.join(dst, "meta.json")))
+        except Exception:
+            old = {}
+    if old.get("history"):
+        meta["history"] = old["history"]
     json.dump(meta, open(os.path.join(dst, "meta.json"), "w"), indent=1)
+    if os.path.realpath(d) == os.path.realpath(dst) and os.path.exists(os.path.join(dst, "eval.json")):
+        os.remove(os.path.join(dst, "eval.json"))
     print(name, {c: v["caught"] for c, v in ev.get("checks", {}).items()})
